@@ -211,7 +211,7 @@ class SpaceInterp(fd.Interp):
         if last in ('gaussian', 'gaussian01'):
             for x in a:
                 self.ev(x, env)
-            return (Fr(-3), Fr(-1), Fr(0), Fr(1, 2), Fr(1), Fr(3))[self.oracle.pick(6)]
+            return (Fr(-3), Fr(-1), Fr(0), Fr(1, 2), Fr(1), Fr(3), Fr(-11), Fr(11))[self.oracle.pick(8)]   # +-11: overshoot by several widths
         if last == 'uniform01':
             return (Fr(0), Fr(1, 2), Fr(1) - EPS)[self.oracle.pick(3)]
         if last == 'enforceBounds':
@@ -279,7 +279,7 @@ def r08b(rep, F):
 
 def r08a(rep, F):
     rep.rule('R08a', 'sampleUniform / sampleUniformNear / sampleGaussian of the scalar samplers, executed abstractly with every '
-                     'script of adversarial RNG outcomes (uniformReal in [a,b), uniformInt in [a,b], gaussian in {-3,-1,0,1/2,1,3}) '
+                     'script of adversarial RNG outcomes (uniformReal in [a,b), uniformInt in [a,b], gaussian in {-11,-3,-1,0,1/2,1,3,11}: inside, on the bounds, beyond them by one and by several widths) '
                      'and every in-bounds near/mean value and distance in {0, 1/2, 3}: the produced state satisfies the '
                      'space\'s satisfiesBounds')
     for samp, space, integer in SCALAR:
@@ -291,7 +291,7 @@ def r08a(rep, F):
             runs = 0
             for near in (near_dom if len(fn.params) > 1 else [None]):
                 for dist in ([Fr(0), Fr(1, 2), Fr(3)] if len(fn.params) > 2 else [None]):
-                    for script in itertools.product(range(6), repeat=2):
+                    for script in itertools.product(range(8), repeat=2):
                         runs += 1
                         orc = Oracle(script)
                         m = {'states': {'out': Fr(0), 'near': near}, 'space': space, 'low': Fr(-1), 'high': Fr(1)}
